@@ -28,6 +28,10 @@ def cases(tier, seed):
     out = [{"s": int(rng.integers(1 << 30)), "ids": ["inorder", "shuffled", "nonsequential", "strings", "case_variants", "one_character"][j % 6],
             "bonds": ["none", "random", "reversed", "no_bondarray"][(j // 4) % 4], "n": [1, 2, 3, 5, 16, 40][(j // 16) % 6] if j % 3 == 0 else None}
            for j in range(n)]
+    # molecules of 257 .. 700 atoms (a large linker, a cluster cut from a framework): counts beyond one byte / the small-integer cache
+    for j in range(6 if tier == "quick" else 300):
+        out.append({"s": int(rng.integers(1 << 30)), "ids": ["inorder", "shuffled", "nonsequential", "strings", "case_variants", "inorder"][j % 6],
+                    "bonds": ["random", "none", "reversed"][j % 3], "n": [257, 300, 513, 700, 258, 260][j % 6]})
     out.append({"repo_files": True, "s": 0})
     return out
 
@@ -47,6 +51,7 @@ def fmt(x, rng):
 
 def build(rng, case):
     n = case["n"] or int(rng.integers(1, 41))
+
     els = [ELS[int(i)] for i in rng.integers(0, len(ELS), n)]
     scale = float(rng.choice([1.0, 10.0, 1e3, 1e-3]))
     if case["s"] % 6 == 5:
@@ -304,6 +309,8 @@ def run_case(case, ctx):
         return
     rng = np.random.default_rng(case["s"])
     text, els, coords, bonds, ids = build(rng, case)
+    if len(els) > 256:
+        ctx.stats.count("documents_with_more_than_256_atoms")
     w = {"ids": ids[:8], "n": len(els), "bonds": bonds[:8], "document_head": text.split("\n")[:8]}
 
     def fail(msg):
@@ -349,6 +356,8 @@ def run_case(case, ctx):
 
 def requirements(stats, tier):
     need = []
+    if stats.get("documents_with_more_than_256_atoms") < (5 if tier == "quick" else 250):
+        need.append("documents with more than 256 atoms: %d" % stats.get("documents_with_more_than_256_atoms"))
     if stats.get("loads_checked") < (1500 if tier == "quick" else 500000):
         need.append("too few loads observed: %d" % stats.get("loads_checked"))
     if stats.get("documents_with_a_bond_entry_listed_twice") < (5 if tier == "quick" else 1000):
